@@ -18,7 +18,8 @@ SelfExiting == {"exit0", "exit3", "exit137", "sigusr1", "orphan0", "orphanq"}   
 
 NewProc(beh, delay, t) ==
     [st |-> "starting", beh |-> beh, delay |-> delay, t0 |-> t, term |-> FALSE, kills |-> 0,
-     cause |-> "", events |-> 0]
+     cause |-> "", events |-> 0,
+     pkd |-> FALSE]      \* the exit of this process had been reported before the Kill (with a deadline in the past) now in progress
 
 \* true status of a process that died for `cause` (fake: a scripted process has no trap handler)
 StatusOf(p, cause, fake) ==
@@ -37,7 +38,8 @@ ExecRetDo(sv, n) == [sv EXCEPT ![n].st = "running"]
 TermCallDo(sv, n) == IF n \in DOMAIN sv THEN [sv EXCEPT ![n].term = TRUE] ELSE sv
 
 \* a Kill with a deadline in the future is in progress between call and return
-KillCallDo(sv, n, past) == IF n \in DOMAIN sv /\ ~past THEN [sv EXCEPT ![n].kills = @ + 1] ELSE sv
+KillCallDo(sv, n, past) == IF n \in DOMAIN sv /\ ~past THEN [sv EXCEPT ![n].kills = @ + 1]
+                           ELSE IF n \in DOMAIN sv THEN [sv EXCEPT ![n].pkd = (sv[n].events = 1)] ELSE sv
 KillRetDo(sv, n, past) == IF n \in DOMAIN sv /\ ~past THEN [sv EXCEPT ![n].kills = @ - 1] ELSE sv
 
 \* the process dies (internal): by itself, from SIGTERM, or from a Kill in progress
